@@ -144,6 +144,7 @@ fn case_json(m: &Mapping, full_bmp: bool) -> Value {
     }
     json!({
         "kind": "map",
+        "composition": COMPOSITION.with(|c| c.get()),
         "full_bmp": full_bmp,
         "mapping": m.iter().map(|(c, g)| json!([c, g])).collect::<Vec<_>>(),
     })
@@ -336,10 +337,7 @@ fn check_mapping(run: &Run, m: &Mapping, full_bmp: bool, l: &mut Local) {
         }
     };
     l.compiled += 1;
-    let font_bytes = FontBuilder::new()
-        .add_raw(Tag::new(b"cmap"), bytes)
-        .add_raw(Tag::new(b"maxp"), maxp_bytes())
-        .build();
+    let font_bytes = wrap_font(bytes);
     let r = guard(|| check_compiled(run, m, full_bmp, &font_bytes, l));
     if let Err(p) = r {
         run.violation(
@@ -845,7 +843,7 @@ const UVS_QUERY_SELS: [u32; 12] = [
 ];
 
 fn uvs_json(spec: &[SelSpec]) -> Value {
-    json!({"kind":"uvs","selectors": spec.iter().map(|s| json!({
+    json!({"kind":"uvs","composition":COMPOSITION.with(|c| c.get()),"selectors": spec.iter().map(|s| json!({
         "sel": s.sel,
         "def": s.def.as_ref().map(|d| d.iter().map(|(a,b)| json!([a,b])).collect::<Vec<_>>()),
         "nondef": s.nondef.as_ref().map(|d| d.iter().map(|(a,b)| json!([a,b])).collect::<Vec<_>>()),
@@ -1015,10 +1013,7 @@ fn check_uvs_with(run: &Run, spec: &[SelSpec], base: &[(u32, u16)], pos: usize, 
         }
     };
     l.compiled += 1;
-    let font_bytes = FontBuilder::new()
-        .add_raw(Tag::new(b"cmap"), bytes)
-        .add_raw(Tag::new(b"maxp"), maxp_bytes())
-        .build();
+    let font_bytes = wrap_font(bytes);
     let r = guard(|| {
         let (font, cmap) = match FontRef::new(&font_bytes).map_err(|e| format!("{e}")).and_then(|f| f.cmap().map(|c| (f.clone(), c)).map_err(|e| format!("{e}"))) {
             Ok(x) => x,
@@ -1329,10 +1324,7 @@ fn direct_format4_family(run: &Run) {
             }
         };
         l.compiled += 1;
-        let font_bytes = FontBuilder::new()
-            .add_raw(Tag::new(b"cmap"), bytes)
-            .add_raw(Tag::new(b"maxp"), maxp_bytes())
-            .build();
+        let font_bytes = wrap_font(bytes);
         CASE_OVERRIDE.with(|c| *c.borrow_mut() = Some(case()));
         let r = guard(|| check_compiled(run, &m, false, &font_bytes, &mut l));
         CASE_OVERRIDE.with(|c| *c.borrow_mut() = None);
@@ -1353,6 +1345,7 @@ fn check_uvs_counts(run: &Run, d: &Value, l: &mut Local) {
     let case = || {
         let mut c = d.clone();
         c["kind"] = json!("uvs_counts");
+        c["composition"] = json!(COMPOSITION.with(|c| c.get()));
         c
     };
     // expected answers for a (character, selector) pair
@@ -1415,10 +1408,7 @@ fn check_uvs_counts(run: &Run, d: &Value, l: &mut Local) {
         }
     };
     l.compiled += 1;
-    let font_bytes = FontBuilder::new()
-        .add_raw(Tag::new(b"cmap"), bytes)
-        .add_raw(Tag::new(b"maxp"), maxp_bytes())
-        .build();
+    let font_bytes = wrap_font(bytes);
     let r = guard(|| {
         let (font, cmap) = match FontRef::new(&font_bytes).map_err(|e| format!("{e}")).and_then(|f| f.cmap().map(|c| (f.clone(), c)).map_err(|e| format!("{e}"))) {
             Ok(x) => x,
@@ -1541,6 +1531,70 @@ fn uvs_counts_family(run: &Run) {
     for l in locals {
         l.merge(run, "F8");
     }
+}
+
+thread_local! {
+    /// which other tables accompany cmap + maxp in the wrapper font (0 = none); set by the F9 family
+    static COMPOSITION: std::cell::Cell<u8> = const { std::cell::Cell::new(0) };
+}
+
+/// The wrapper font of every high-level check. Compositions: 0 maxp + cmap; 1 also an empty (zero-length)
+/// glyf and a loca; 2 also zero-length tables whose tags sort before and after 'cmap'.
+fn wrap_font(cmap: Vec<u8>) -> Vec<u8> {
+    let mut b = FontBuilder::new();
+    b.add_raw(Tag::new(b"cmap"), cmap).add_raw(Tag::new(b"maxp"), maxp_bytes());
+    match COMPOSITION.with(|c| c.get()) {
+        1 => {
+            b.add_raw(Tag::new(b"glyf"), Vec::<u8>::new()).add_raw(Tag::new(b"loca"), vec![0u8, 0]);
+        }
+        2 => {
+            b.add_raw(Tag::new(b"DSIG"), Vec::<u8>::new())
+                .add_raw(Tag::new(b"aaaa"), Vec::<u8>::new())
+                .add_raw(Tag::new(b"zzzz"), Vec::<u8>::new());
+        }
+        _ => {}
+    }
+    b.build()
+}
+
+/// F9: one representative of every family re-run with the two other font compositions (the high-level
+/// API reads cmap through the table directory, so directory offsets must survive empty neighbours).
+fn composition_family(run: &Run) {
+    run.bound("F9.compositions", json!(["maxp + cmap (all other families)", "+ zero-length glyf + loca", "+ zero-length tables sorting before and after cmap"]));
+    let mut l = Local::new();
+    for comp in [1u8, 2] {
+        COMPOSITION.with(|c| c.set(comp));
+        // F1: every mapping touching <= 1 point; two mixed BMP / supplementary ones
+        check_mapping(run, &vec![], true, &mut l);
+        for p in P {
+            for g in gids_for(p) {
+                check_mapping(run, &vec![(p, g)], false, &mut l);
+            }
+        }
+        check_mapping(run, &vec![(0x20, 1), (0x21, 2), (0x23, 1)], true, &mut l);
+        check_mapping(run, &vec![(0xFFFE, 2), (0x10000, 1), (0x10FFFF, 3)], false, &mut l);
+        // F2 / F3 representatives
+        check_mapping(run, &(0..7u32).map(|i| (0x100 + i, (7 + i + if i >= 3 { 5 } else { 0 }) as u16)).collect(), false, &mut l);
+        check_mapping(
+            run,
+            &blocks_to_mapping(0x41, &[Block { ty: 1, len: 2, gap: false }, Block { ty: 0, len: 5, gap: false }, Block { ty: 1, len: 2, gap: true }]),
+            false,
+            &mut l,
+        );
+        // F4 / F6 representatives
+        let spec = vec![
+            SelSpec { sel: 0xFE00, def: Some(vec![(0x30, 2)]), nondef: Some(vec![(0x41, 5)]) },
+            SelSpec { sel: 0xE0100, def: None, nondef: Some(vec![(0x31, 0xFFFE), (0x10001, 5)]) },
+        ];
+        check_uvs(run, &spec, &mut l);
+        check_uvs_with(run, &spec, &[(0x41, 9), (0x42, 5), (0x43, 7), (0x44, 6), (0x10000, 30)], 2, true, &mut l);
+        // F5 / F8 representatives
+        check_edge(run, &json!({"family":"dup","n":1,"supp":true}), &mut l);
+        check_edge(run, &json!({"family":"isolated","n":100,"supp":false}), &mut l);
+        check_uvs_counts(run, &json!({"what":"selectors","n":3}), &mut l);
+    }
+    COMPOSITION.with(|c| c.set(0));
+    l.merge(run, "F9");
 }
 
 fn uvs_family(run: &Run) {
@@ -1705,6 +1759,7 @@ fn check_edge(run: &Run, d: &Value, l: &mut Local) {
     let case = || {
         let mut c = d.clone();
         c["kind"] = json!("edge");
+        c["composition"] = json!(COMPOSITION.with(|c| c.get()));
         c
     };
     let input: Vec<(char, GlyphId)> = raw
@@ -1790,10 +1845,7 @@ fn check_edge(run: &Run, d: &Value, l: &mut Local) {
         }
     };
     l.compiled += 1;
-    let font_bytes = FontBuilder::new()
-        .add_raw(Tag::new(b"cmap"), bytes)
-        .add_raw(Tag::new(b"maxp"), maxp_bytes())
-        .build();
+    let font_bytes = wrap_font(bytes);
     let r = guard(|| {
         let Ok(font) = FontRef::new(&font_bytes) else {
             run.violation(&format!("built font does not parse ({family} input)"), "", case());
@@ -1970,6 +2022,7 @@ fn body(run: &Run, replay: Option<&Value>) {
     run.assume("Cmap14 inputs keep default ranges and non-default characters of one selector disjoint; sequence enumerations are compared as sets");
     if let Some(case) = replay {
         let mut l = Local::new();
+        COMPOSITION.with(|c| c.set(case["composition"].as_u64().unwrap_or(0) as u8));
         match case["kind"].as_str() {
             Some("map") => {
                 let m: Mapping = case["mapping"]
@@ -2029,4 +2082,5 @@ fn body(run: &Run, replay: Option<&Value>) {
     family(run, "direct_format4_family", || direct_format4_family(run));
     family(run, "uvs_counts_family", || uvs_counts_family(run));
     family(run, "edge_family", || edge_family(run));
+    family(run, "composition_family", || composition_family(run));
 }
